@@ -44,3 +44,24 @@ def alStep (eps tau gamma miuMax lmin lmax : α) (outer : Nat) (s : ALState α) 
     ({ best := best, ro := ro', lambda := lambda', miu := miu', oldCrit := crit, status := 0 }, false)
 end
 end Nano
+
+namespace Nano
+section
+variable {α : Type} [Add α] [Sub α] [Mul α] [Div α] [Neg α] [LT α] [LE α]
+  [DecidableLT α] [DecidableLE α] [∀ n, OfNat α n] [Max α] [Min α]
+
+/-- the outer loop: `inner k s` is whatever the inner solver returns at outer iteration k from state s,
+    `close k s` the verdict of `nano::converged(bstate, cstate, eps)` -/
+def alLoop (eps tau gamma miuMax lmin lmax : α) (inner : Nat → ALState α → Inner α) (close : Nat → ALState α → Bool) :
+    Nat → Nat → ALState α → ALState α
+  | 0, _, s => s
+  | fuel + 1, outer, s =>
+    let (s', stop) := alStep eps tau gamma miuMax lmin lmax outer s (inner outer s) (close outer s)
+    if stop then s' else alLoop eps tau gamma miuMax lmin lmax inner close fuel (outer + 1) s'
+
+/-- initial state from the starting point -/
+def alInit (x0 : Inner α) (ro1 : α) : ALState α :=
+  { best := x0, ro := ro1, lambda := x0.ceq.map fun _ => 0, miu := x0.cineq.map fun _ => 0,
+    oldCrit := criterion x0 (x0.cineq.map fun _ => 0) ro1, status := 0 }
+end
+end Nano
